@@ -29,7 +29,7 @@ def sh(cmd, cwd=None, env=None, timeout=7200):
     return r.returncode, r.stdout, r.stderr
 
 
-def confirm(mdir, scratch):
+def confirm(mdir, scratch, refactoring=False):
     res = {}
     if os.path.exists(scratch):
         sh(["git", "-C", REPO, "worktree", "remove", "--force", scratch])
@@ -58,8 +58,12 @@ def confirm(mdir, scratch):
     finally:
         sh(["git", "-C", REPO, "worktree", "remove", "--force", scratch])
         shutil.rmtree(scratch, ignore_errors=True)
-    res["confirmed"] = bool(res.get("patch_applies") and res.get("tests_pass_with_change") and res.get("demo_without_change") == 0
-                            and res.get("demo_with_change") not in (0, None))
+    if refactoring:   # a behaviour-preserving change: its demonstration passes on both trees
+        res["confirmed"] = bool(res.get("patch_applies") and res.get("tests_pass_with_change") and res.get("demo_without_change") == 0
+                                and res.get("demo_with_change") == 0)
+    else:
+        res["confirmed"] = bool(res.get("patch_applies") and res.get("tests_pass_with_change") and res.get("demo_without_change") == 0
+                                and res.get("demo_with_change") not in (0, None))
     return res
 
 
@@ -110,7 +114,8 @@ def main():
     meta = json.load(open(os.path.join(mdir, "meta.json")))
     prop = meta["property"]
     name = meta.get("name") or os.path.basename(mdir)
-    dest = os.path.join(VERIF, "seeded", f"{prop}-{name}")
+    refactoring = meta.get("kind") == "refactoring"
+    dest = os.path.join(VERIF, "refactorings" if refactoring else "seeded", f"{prop}-{name}")
     os.makedirs(dest, exist_ok=True)
     for f in ("patch.diff", "demo.py", "meta.json"):
         if os.path.abspath(os.path.join(mdir, f)) != os.path.abspath(os.path.join(dest, f)):
@@ -118,7 +123,7 @@ def main():
     rpath = os.path.join(dest, "result.json")
     result = json.load(open(rpath)) if os.path.exists(rpath) else {}
     if not a.skip_confirm:
-        result["confirmation"] = confirm(dest, f"/tmp/seedverify-{prop}-{name}")
+        result["confirmation"] = confirm(dest, f"/tmp/seedverify-{prop}-{name}", refactoring)
     props = a.props.split(",") if a.props else [prop]
     if a.confirm_only:
         json.dump(result, open(rpath, "w"), indent=1)
@@ -128,13 +133,15 @@ def main():
         runs = run_checks(os.path.join(dest, "patch.diff"), props, a.tier)
         result.setdefault("checks", {}).update(runs)
         result["detected_by"] = sorted(p for p, r in result["checks"].items() if r.get("exit") == 1)
+        if refactoring:
+            result["alarms"] = result.pop("detected_by")
     json.dump(result, open(rpath, "w"), indent=1)
     # meta.json gains what we ran
     meta["what_we_ran"] = ["tools/harness/seedrun.py: git apply in a scratch worktree; pytest -n 12 tests; demo.py with/without the change; "
                            "git -C /repo apply; ./check <prop> --tier quick; git -C /repo checkout -- ."]
     json.dump(meta, open(os.path.join(dest, "meta.json"), "w"), indent=1)
     print(json.dumps({"mutant": f"{prop}-{name}", "confirmed": result.get("confirmation", {}).get("confirmed"),
-                      "detected_by": result.get("detected_by"),
+                      "detected_by": result.get("detected_by"), "alarms": result.get("alarms"),
                       "checks": {p: (r.get("exit"), r.get("kind"), r.get("lines")) for p, r in result.get("checks", {}).items()}}, indent=1))
 
 
